@@ -3,6 +3,7 @@ import NLV.Driver.Lines
 import NLV.Driver.Registrars
 import NLV.Driver.Aio
 import NLV.Driver.Commands
+import NLV.Driver.DoneCallback
 
 def main (args : List String) : IO UInt32 := do
   match args with
@@ -11,4 +12,5 @@ def main (args : List String) : IO UInt32 := do
   | ["reg"] => NLV.Driver.Reg.main; return 0
   | ["aio"] => NLV.Driver.Aio.main; return 0
   | ["cmd"] => NLV.Driver.Cmd.main; return 0
+  | ["done"] => NLV.Driver.Done.main; return 0
   | _ => IO.eprintln "usage: nlvmodel <model>"; return 2
